@@ -535,6 +535,7 @@ const (
 	lvStruct
 	lvElem      // element of an array stored in container lvalue
 	lvSliceElem // element of a slice value
+	lvValField  // field of a struct value that is itself an element (of a slice or array) or such a field
 )
 
 type lval struct {
@@ -579,6 +580,13 @@ func (fr *frame) addrOf(v ssa.Value) *lval {
 		st := deref(x.X.Type())
 		su := st.Underlying().(*types.Struct)
 		f := su.Field(x.Field)
+		if in := fr.elemValueLval(x.X); in != nil {
+			// a field of an element: elements are values, so the field is
+			// read off the element value (no address is made up for it)
+			lv = &lval{kind: lvValField, container: in, structT: st, field: f.Name(), elemT: f.Type()}
+			fr.lvals[v] = lv
+			return lv
+		}
 		basePtr := fr.val(x.X)
 		if isStruct(f.Type()) {
 			lv = &lval{kind: lvStruct, base: Term{fmt.Sprintf("(%s %s)", fr.enc.faFun(st, f.Name()), basePtr.S), SInt}, elemT: f.Type()}
@@ -607,6 +615,22 @@ func (fr *frame) addrOf(v ssa.Value) *lval {
 	}
 	fr.lvals[v] = lv
 	return lv
+}
+
+// elemValueLval: v is the address of a slice/array element (or of a field of
+// one) that has not been used as a pointer value; its lvalue reads the element
+// value.  nil otherwise.
+func (fr *frame) elemValueLval(v ssa.Value) *lval {
+	if _, done := fr.vals[v]; done {
+		return nil
+	}
+	switch v.(type) {
+	case *ssa.IndexAddr, *ssa.FieldAddr:
+		if in := fr.addrOf(v); in.kind == lvSliceElem && !isByte(in.elemT) || in.kind == lvElem || in.kind == lvValField {
+			return in
+		}
+	}
+	return nil
 }
 
 func (fr *frame) lvalAsPointer(lv *lval) Term {
@@ -638,6 +662,10 @@ func (fr *frame) load(lv *lval, st *State) Term {
 		c := fr.load(lv.container, st)
 		so := sortOf(lv.elemT)
 		return Term{fmt.Sprintf("(%s %s %s)", atFn(so), c.S, lv.idx.S), so}
+	case lvValField:
+		c := fr.load(lv.container, st)
+		so := sortOf(lv.elemT)
+		return Term{fmt.Sprintf("(%s %s)", fr.enc.fldSel(lv.structT, lv.field, so), c.S), so}
 	case lvSliceElem:
 		so := sortOf(lv.elemT)
 		if isByte(lv.elemT) {
@@ -700,6 +728,8 @@ func (fr *frame) store(lv *lval, val Term, st *State) {
 			return
 		}
 		vc.warn("%s: store through slice element is not modelled (slice contents are values); function is outside the precise subset", fr.fn)
+	case lvValField:
+		vc.warn("%s: store to a field of a slice/array element is not modelled (element contents are values); function is outside the precise subset", fr.fn)
 	}
 }
 
